@@ -390,6 +390,104 @@ def run_core(c, probe=None):
     return None if err <= tol else f"values differ rel={err:.3g}"
 
 
+def run_core_cells(c):
+    """core function vs object interface on ALL observer cells of C01 for the class (both sides of every formula switch),
+    local frame = global frame, one vectorised call each"""
+    import magpylib as magpy
+    from magpylib import core as _core
+
+    from mc.props import C01
+
+    core = CoreProxy(_core)
+    cls, ri, exc = c["cls"], c["regime"], np.array(C01.EXC[c["exc"]], float)
+    par = C01.REGIMES[cls][ri]
+    loc, _ = C01.cells(cls, par if cls != "Dipole" else {}, "quick", c.get("seed", 0))
+    loc = loc[~C01.on_source(cls, par, loc)]
+    n = len(loc)
+    mu0 = magpy.mu_0
+    src = C01.make(cls, par, tuple(exc), ((0.0, 0.0, 0.0), (0.0, 0.0, 0.0)))
+    r, phi = np.sqrt(loc[:, 0] ** 2 + loc[:, 1] ** 2), np.arctan2(loc[:, 1], loc[:, 0])
+
+    def cart(Hr, Hphi, Hz):
+        return np.array([Hr * np.cos(phi) - Hphi * np.sin(phi), Hr * np.sin(phi) + Hphi * np.cos(phi), Hz]).T
+
+    tile = lambda v: np.tile(np.array(v, float), (n, 1))  # noqa: E731
+    if cls == "Cuboid":
+        got, ref = core.magnet_cuboid_Bfield(observers=loc.copy(), dimensions=tile(par["dimension"]), polarizations=tile(exc)), src.getB(loc)
+    elif cls == "Sphere":
+        got, ref = core.magnet_sphere_Bfield(observers=loc.copy(), diameters=np.full(n, par["diameter"]), polarizations=tile(exc)), src.getB(loc)
+    elif cls == "Dipole":
+        got, ref = core.dipole_Hfield(observers=loc.copy(), moments=tile(exc)), src.getH(loc)
+    elif cls == "Triangle":
+        got, ref = core.triangle_Bfield(observers=loc.copy(), vertices=np.tile(np.array(par["vertices"], float), (n, 1, 1)), polarizations=tile(exc)), src.getB(loc)
+    elif cls == "Circle":
+        cur = exc[0] * 3 + 1.7
+        Hc = np.asarray(core.current_circle_Hfield(r0=np.full(n, par["diameter"] / 2), r=r, z=loc[:, 2].copy(), i0=np.full(n, cur)))
+        got, ref = cart(Hc[0], Hc[1], Hc[2]), src.getH(loc)
+    elif cls == "Polyline":
+        cur = exc[0] * 3 + 1.7
+        v = np.array(par["vertices"], float)
+        got = sum(core.current_polyline_Hfield(observers=loc.copy(), segments_start=tile(a), segments_end=tile(b), currents=np.full(n, cur))
+                  for a, b in zip(v[:-1], v[1:]))
+        ref = src.getH(loc)
+    elif cls == "Cylinder":
+        r0, z0 = par["dimension"][0] / 2, par["dimension"][1] / 2
+        Bax = np.asarray(core.magnet_cylinder_axial_Bfield(z0=np.full(n, z0 / r0), r=r / r0, z=loc[:, 2] / r0))
+        pxy = np.hypot(exc[0], exc[1])
+        th = np.arctan2(exc[1], exc[0])
+        Hd = np.asarray(core.magnet_cylinder_diametral_Hfield(z0=np.full(n, z0 / r0), r=r / r0, z=loc[:, 2] / r0, phi=phi - th))
+        got = cart(Bax[0], Bax[1], Bax[2]) * exc[2] / mu0 + cart(Hd[0], Hd[1], Hd[2]) * pxy / mu0
+        # the axial core returns B/J: inside the body H = (B - J_z e_z)/mu0
+        ins = (r <= r0) & (np.abs(loc[:, 2]) <= z0)
+        got[ins, 2] -= exc[2] / mu0
+        ref = src.getH(loc)
+    elif cls == "CylinderSegment":
+        d = np.array(par["dimension"], float)
+        if d[4] - d[3] >= 360:
+            return None   # full rings are evaluated by the Cylinder shortcut in the object interface (compared in run_core)
+        dcy = np.tile(np.array([d[0], d[1], np.deg2rad(d[3]), np.deg2rad(d[4]), -d[2] / 2, d[2] / 2]), (n, 1))
+        m = np.linalg.norm(exc) / mu0
+        mag = np.tile(np.array([m, np.arctan2(exc[1], exc[0]), np.arctan2(np.hypot(exc[0], exc[1]), exc[2])]), (n, 1))
+        Hc = core.magnet_cylinder_segment_Hfield(observers=np.array([r, phi, loc[:, 2]]).T, dimensions=dcy, magnetizations=mag)
+        got, ref = cart(Hc[:, 0], Hc[:, 1], Hc[:, 2]), src.getH(loc)
+    else:
+        raise AssertionError(cls)
+    got, ref = np.asarray(got, float), np.asarray(ref, float)
+    if core.mutated:
+        return f"core function modified its input arrays: {sorted(set(core.mutated))}"
+    if core.second_differs:
+        return f"second identical call of the core function differs: {core.second_differs}"
+    if got.shape != ref.shape:
+        return f"shape {got.shape} != {ref.shape}"
+    fin = np.isfinite(got).all(1) & np.isfinite(ref).all(1)
+    onaxis = (r == 0) if cls in ("Circle", "Cylinder", "CylinderSegment") else np.zeros(n, bool)   # coordinate singularity of the cylindrical cores
+    fin &= ~onaxis
+    if ((np.isfinite(got).all(1) != np.isfinite(ref).all(1)) & ~onaxis).any():
+        i = int(np.argmax((np.isfinite(got).all(1) != np.isfinite(ref).all(1)) & ~onaxis))
+        return f"finite in one interface only at local observer {loc[i].tolist()}: core {got[i].tolist()} object {ref[i].tolist()}"
+    # per-row scale with the natural field magnitude as floor (far / symmetric points where the field vanishes)
+    top = float(np.max(np.linalg.norm(ref[fin], axis=1))) if fin.any() else 0.0
+    if top == 0.0:   # the field vanishes identically (e.g. in-plane polarization of a triangle): both must say so
+        return None if not np.any(got[fin]) else "core returns a non-zero field where the object interface returns zero"
+    sc = np.maximum(np.linalg.norm(ref, axis=1), 1e-6 * top)
+    err = np.linalg.norm(got - ref, axis=1) / sc
+    # CylinderSegment: the object interface evaluates in units of the body size, the core in the caller's units; next to the
+    # axis and the face planes the 26-case formulas are only accurate to ~1e-6, which then shows as a difference (observed
+    # <= 1e-6; a wrong case, angle or parameter shows at >= 1e-2)
+    # Cylinder: the diametral formula cancels near the axis (documented, ~1e-10 around r/r0 = 0.05), one-ulp differences of the
+    # inputs are amplified to ~1e-9
+    tol = 1e-7 if cls == "Cylinder" else 1e-5 if cls == "CylinderSegment" else 1e-10
+    bad = fin & ~(err <= tol)
+    if cls == "CylinderSegment":
+        # beyond a few body sizes both interfaces only deliver cancellation noise (C01 finding); the object interface works in
+        # units of the body size, the core in the caller's units, so the noise differs: compared within 3 sizes only
+        bad &= np.linalg.norm(loc, axis=1) < 3 * max(par["dimension"][1], par["dimension"][2])
+    if bad.any():
+        i = int(np.argmax(np.where(bad, err, 0)))
+        return f"values differ rel={err[i]:.3g} at local observer {loc[i].tolist()} ({int(bad.sum())} of {n} rows)"
+    return None
+
+
 CORES = ["magnet_cuboid_Bfield", "magnet_sphere_Bfield", "dipole_Hfield", "current_polyline_Hfield", "triangle_Bfield",
          "current_circle_Hfield", "magnet_cylinder_segment_Hfield", "magnet_cylinder_axial_Bfield",
          "magnet_cylinder_diametral_Hfield"]
@@ -401,6 +499,8 @@ def work(c):
             return run_func(c)
         if c["part"] == "forms":
             return run_forms(c)
+        if c["part"] == "corecells":
+            return run_core_cells(c)
         return run_core(c)
     except Exception as e:
         import traceback
@@ -408,7 +508,7 @@ def work(c):
         return "HARNESS " + f"{type(e).__name__}: {e} {traceback.format_exc()[-400:]}"
 
 
-def enumerate_cases(tier):
+def enumerate_cases(tier, seed=0):
     cases = []
     subsets = [list(s) for k in range(len(PARTS) + 1) for s in itertools.combinations(PARTS, k)]
     for cls in FUNC_CLASSES:
@@ -434,11 +534,18 @@ def enumerate_cases(tier):
                 cases.append({"part": "forms", "cls": cls, "field": field, "plen": plen})
     for core in CORES:
         cases.append({"part": "core", "core": core})
+    from mc.props import C01
+
+    for cls in ("Cuboid", "Sphere", "Dipole", "Triangle", "Circle", "Polyline", "Cylinder", "CylinderSegment"):
+        for ri in range(len(C01.REGIMES[cls]) if tier == "thorough" else min(3, len(C01.REGIMES[cls]))):
+            for exc in ((0, 1, 2, 3) if cls not in ("Circle", "Polyline") else (0, 1)):
+                for sd in ((0, 1, 2, 3) if tier == "thorough" else (seed % 4,)):
+                    cases.append({"part": "corecells", "cls": cls, "regime": ri, "exc": exc, "seed": sd})
     return cases
 
 
 def run(tier, seed):
-    cases = enumerate_cases(tier)
+    cases = enumerate_cases(tier, seed)
     res = common.pmap(work, cases)
     viols, harness = [], []
     nforms = 0
@@ -457,6 +564,8 @@ def run(tier, seed):
         elif c["part"] == "forms":
             for b in r:
                 viols.append({"key": f"C07|form|{c['cls']}|{c['field']}|{b.split(':')[0]}", "what": f"{c}: {b}", "case": c, "observed": b})
+        elif c["part"] == "corecells":
+            viols.append({"key": f"C07|corecells|{c['cls']}|regime={c['regime']}|{r.split(' ')[0]}-{r.split(' ')[1]}", "what": f"{c}: {r}", "case": c, "observed": r})
         else:
             viols.append({"key": f"C07|core|{c['core']}", "what": f"{c}: {r}", "case": c, "observed": r})
     n = len(cases) - sum(1 for c in cases if c["part"] == "forms") + nforms
